@@ -1,14 +1,20 @@
 PROPERTY = {
     'id': 'C02',
-    'contract_modules': ['checker', 'doctest_part'],
-    'functions': ['xdoctest.checker:check_got_vs_want',
+    'contract_modules': ['doctest_example', 'util_stream', 'checker', 'doctest_part', 'runner'],
+    'functions': ['xdoctest.doctest_example:DocTest.run', 'xdoctest.doctest_example:DocTest._post_run',
+                  'xdoctest.checker:check_got_vs_want',
                   'xdoctest.doctest_part:DoctestPart.check',
                   'xdoctest.checker:check_output'],
     'clauses': {
         'P': ['check_got_vs_want returns iff S.V(want, stdout, value): stdout if nothing evaluated, repr(value) if nothing '
               'printed, either one otherwise; repr (not str) of the value; raising repr => ExtractGotReprException',
               'DoctestPart.check succeeds iff some trailing sequence of the unmatched outputs (joined) satisfies S.V; '
-              'otherwise GotWantException'],
+              'otherwise GotWantException',
+              'run: the unmatched outputs are exactly the outputs of the want-less executed parts since the last executed part with a want '
+              '(reset to [] after every executed part with a want, IGNORE_WANT or not; appended otherwise; untouched by skipped parts and by '
+              'expected exceptions); check is called once with this part, its own output and that list; a GotWantException sets exc_info and '
+              'leaves the loop (invariant: no failure yet at the loop head)',
+              '_post_run / run: failed == (exc_info is not None), skipped == (every part skipped), passed == neither; exactly one of the three'],
         'T': ['check_output as the relation S.match (C05)', 'repr as an oracle'],
     },
     'explanation': 'C02 at the checker/part level: exact (iff) characterisations, one loop invariant for the suffix search.',
